@@ -964,6 +964,8 @@ func (g *groupQuery) Select(t iterator) NodeNavigator {
 }
 
 func (g *groupQuery) Evaluate(t iterator) interface{} {
+	// positions count from one for every evaluation of the group.
+	g.posit = 0
 	return g.Input.Evaluate(t)
 }
 
